@@ -360,6 +360,73 @@ func genDrain(r *vproto.Rng, par [2]int, kind string, order int) *rtwire.Hist {
 	return h
 }
 
+// far: a tight cluster of objects about 2^26 units away from the query points, so that the
+// squared box distances are exact integers in [2^51, 2^53) that differ by 1, 2, 3, 4, ... - closer
+// together than the float64 grid of their square roots (ulp 2^-26 at 2^26): a comparison of
+// math.Sqrt values cannot tell them apart, a comparison of the squared values can.  layout 0: the
+// cluster lies straight east of the query (objects of one column differ by dy^2 only), layout 1:
+// on the diagonal (objects of one anti-diagonal differ by a^2+b^2 only).  The whole picture is
+// multiplied by a power of two (exactness is scale-free), e.g. 2^-26: data around (1,0) with
+// offsets of 2^-26.
+func genFar(r *vproto.Rng, par [2]int, kind string, layout int, i int) *rtwire.Hist {
+	scales := []float64{1, 1, 0x1p-26, 0x1p-40, 0x1p60, 0x1p-3}
+	sc := scales[r.Intn(len(scales))]
+	h := &rtwire.Hist{Min: par[0], Max: par[1], Kind: kind, Scale: sc, KQs: []rtwire.KQ{},
+		Queries: []rtwire.Box{{MinX: 0, MinY: 0, MaxX: sc, MaxY: sc}}}
+	h.Class = fmt.Sprintf("nn-far%d-%s-m%dM%d", layout, kind, par[0], par[1])
+	bx, by := float64(1<<26), 0.0
+	if layout == 1 {
+		bx, by = 47453132, 47453132 // ~2^25.5 each: the sum of the squares stays below 2^53
+	}
+	n := 6 + r.Intn(3*par[1])
+	if n > 36 {
+		n = 36
+	}
+	span := 2 + r.Intn(3)
+	if m := (2*span+1)*(2*span+1)*3/5 - 4; n > m { // enough distinct lattice points for the pool
+		n = m
+	}
+	seen := map[[2]int]bool{}
+	for len(h.Pool) < n+4 {
+		a, c := r.Range(-span, span), r.Range(-span, span)
+		if seen[[2]int{a, c}] && (kind == "pt" || r.Chance(0.9)) { // a few coincident objects (exact ties); equal geom.Point values are one object
+			continue
+		}
+		seen[[2]int{a, c}] = true
+		b := rtwire.Box{MinX: bx + float64(a), MinY: by + float64(c)}
+		b.MaxX, b.MaxY = b.MinX, b.MinY
+		if kind != "pt" && r.Chance(0.4) {
+			b.MaxX, b.MaxY = b.MinX+float64(r.Intn(2)), b.MinY+float64(r.Intn(2))
+		}
+		h.Pool = append(h.Pool, rtwire.Box{MinX: b.MinX * sc, MinY: b.MinY * sc, MaxX: b.MaxX * sc, MaxY: b.MaxY * sc})
+	}
+	s := &st{h: h}
+	for id := 0; id < n; id++ {
+		s.ins(id)
+	}
+	ask := func(m int) {
+		for c := 0; c < m; c++ {
+			x, y := float64(r.Range(-2, 2)), float64(r.Range(-2, 2))
+			if layout == 0 {
+				y = float64(r.Range(-span-1, span+1))
+			}
+			if r.Chance(0.15) { // from the other side
+				x, y = 2*bx-x, 2*by-y
+			}
+			ks := []int{0, 1, 2, 3, len(s.present), len(s.present) + 2, 0, 1, r.Range(1, len(s.present)+1)}
+			s.ask(x*sc, y*sc, ks[(c+i)%len(ks)])
+		}
+	}
+	ask(10)
+	for c := 0; c < 3 && len(s.present) > 2; c++ {
+		s.del(s.present[r.Intn(len(s.present))])
+	}
+	s.ins(n)
+	s.ins(n + 1)
+	ask(8)
+	return h
+}
+
 func gen(seed uint64, tier string) []*rtwire.Hist {
 	r := vproto.NewRng(seed ^ 0xC12)
 	var hs []*rtwire.Hist
@@ -451,6 +518,31 @@ func gen(seed uint64, tier string) []*rtwire.Hist {
 		}
 		hs = append(hs, h)
 	}
+	// squared distances 2^52 and 2^52+1 (both exact): their float64 square roots are equal.  The
+	// farther object is inserted (and scanned) first.
+	for ki, kind := range rtwire.Kinds {
+		f := float64(1 << 26)
+		pool := []rtwire.Box{{MinX: f, MinY: 1, MaxX: f, MaxY: 1}, {MinX: f, MinY: 0, MaxX: f, MaxY: 0}, {MinX: f + 1, MinY: 5, MaxX: f + 1, MaxY: 5},
+			{MinX: f, MinY: -1, MaxX: f, MaxY: -1}, {MinX: f, MinY: 2, MaxX: f, MaxY: 2}, {MinX: f + 1, MinY: 0, MaxX: f + 1, MaxY: 0}}
+		h := &rtwire.Hist{Class: "nn-corpus-sqrt-collapse", Min: 2, Max: 4 + ki, Kind: kind, Pool: pool,
+			Queries: []rtwire.Box{{MinX: 0, MinY: 0, MaxX: 1, MaxY: 1}}, KQs: []rtwire.KQ{}}
+		s := &st{h: h}
+		s.ins(0)
+		s.ins(1)
+		s.ins(2)
+		s.ask(0, 0, 0)
+		s.ask(0, 0, 1)
+		s.ask(0, 0, 2)
+		s.ask(0, 0, 3)
+		s.ins(4)
+		s.ins(3)
+		s.ins(5)
+		for _, k := range []int{0, 1, 2, 3, 4, 6, 8} {
+			s.ask(0, 0, k)
+			s.ask(0, 1, k)
+		}
+		hs = append(hs, h)
+	}
 	// NearestNeighbors on trees that store nothing: fresh, and emptied by deletes
 	for ki, kind := range rtwire.Kinds {
 		pool := []rtwire.Box{{MinX: 1, MinY: 1, MaxX: 2, MaxY: 2}, {MinX: 4, MinY: 0, MaxX: 4, MaxY: 0}}
@@ -517,6 +609,14 @@ func gen(seed uint64, tier string) []*rtwire.Hist {
 		addQueries(r, h, 14)
 		askAll(h)
 		hs = append(hs, h)
+	}
+	nfar := 60
+	if tier == "thorough" {
+		nfar = 600
+	}
+	for i := 0; i < nfar; i++ {
+		par := [][2]int{{2, 4}, {2, 3}, {2, 5}, {3, 6}, {4, 8}, {3, 7}}[i%6]
+		hs = append(hs, genFar(r, par, rtwire.Kinds[(i/6)%3], (i/2)%2, i))
 	}
 	return hs
 }
